@@ -890,6 +890,9 @@ type KeySharePrivateKeys struct {
 	Ecdhe      *ecdh.PrivateKey
 	Mlkem      *mlkem.DecapsulationKey768
 	MlkemEcdhe *ecdh.PrivateKey
+	// ExtraEcdhe holds the private keys of the classical key shares that
+	// follow the first one (whose key is Ecdhe) in the key_share extension.
+	ExtraEcdhe []*ecdh.PrivateKey
 }
 
 func (ksp *KeySharePrivateKeys) ToPrivate() *keySharePrivateKeys {
@@ -901,6 +904,7 @@ func (ksp *KeySharePrivateKeys) ToPrivate() *keySharePrivateKeys {
 		ecdhe:      ksp.Ecdhe,
 		mlkem:      ksp.Mlkem,
 		mlkemEcdhe: ksp.MlkemEcdhe,
+		extraEcdhe: ksp.ExtraEcdhe,
 	}
 }
 
@@ -913,5 +917,6 @@ func (ksp *keySharePrivateKeys) ToPublic() *KeySharePrivateKeys {
 		Ecdhe:      ksp.ecdhe,
 		Mlkem:      ksp.mlkem,
 		MlkemEcdhe: ksp.mlkemEcdhe,
+		ExtraEcdhe: ksp.extraEcdhe,
 	}
 }
